@@ -37,7 +37,15 @@ pub fn parse_indexed_resp(buf: &mut BytesMut) -> Result<IndexedResp, ParseError>
     Ok(IndexedResp::new(resp, data))
 }
 
+// Nested arrays deeper than this are not valid requests or replies.
+// The limit keeps the recursion of the parser from overflowing the stack.
+const MAX_ARRAY_DEPTH: usize = 128;
+
 pub fn parse_resp(buf: &[u8]) -> Result<(RespIndex, usize), ParseError> {
+    parse_resp_with_depth(buf, 0)
+}
+
+fn parse_resp_with_depth(buf: &[u8], depth: usize) -> Result<(RespIndex, usize), ParseError> {
     if buf.is_empty() {
         return Err(ParseError::NotEnoughData);
     }
@@ -67,7 +75,10 @@ pub fn parse_resp(buf: &[u8]) -> Result<(RespIndex, usize), ParseError> {
             Ok((RespIndex::Error(v), 1 + consumed))
         }
         b'*' => {
-            let (mut v, consumed) = parse_array(next_buf)?;
+            if depth >= MAX_ARRAY_DEPTH {
+                return Err(ParseError::InvalidProtocol);
+            }
+            let (mut v, consumed) = parse_array_with_depth(next_buf, depth + 1)?;
             v.advance(1);
             Ok((RespIndex::Arr(v), 1 + consumed))
         }
@@ -78,7 +89,12 @@ pub fn parse_resp(buf: &[u8]) -> Result<(RespIndex, usize), ParseError> {
     }
 }
 
+#[cfg(test)]
 fn parse_array(buf: &[u8]) -> Result<(ArrayIndex, usize), ParseError> {
+    parse_array_with_depth(buf, 1)
+}
+
+fn parse_array_with_depth(buf: &[u8], depth: usize) -> Result<(ArrayIndex, usize), ParseError> {
     let (len, mut consumed) = parse_len(buf)?;
     if len == -1 {
         return Ok((ArrayIndex::Nil, consumed));
@@ -88,11 +104,12 @@ fn parse_array(buf: &[u8]) -> Result<(ArrayIndex, usize), ParseError> {
     }
 
     let array_size = len as usize;
-    let mut array = Vec::with_capacity(array_size);
+    // The length is not trustworthy. Every element needs at least one byte.
+    let mut array = Vec::with_capacity(std::cmp::min(array_size, buf.len()));
 
     for _ in 0..array_size {
         let next_buf = buf.get(consumed..).ok_or(ParseError::InvalidProtocol)?;
-        let (mut v, element_consumed) = parse_resp(next_buf)?;
+        let (mut v, element_consumed) = parse_resp_with_depth(next_buf, depth)?;
         v.advance(consumed);
         consumed += element_consumed;
         array.push(v);
